@@ -9,6 +9,11 @@ the real typed HTTP client; each prefix of it is a root state:
   st2  + X wrote bytes 0..4 of (A,0)
   st3  + X uploaded (A,1) completely         ((A,0) still in progress)
   st4  + mutable slot M share 0 written with write enabler W
+and three roots in which an upload slot of a storage index changes hands while a sibling share
+of the same index is still in progress:
+  st5  X allocated (A,0),(A,1); X aborted (A,0); Y allocated (A,0) anew (UY)
+  st6  X allocated (A,0), 29 min later (A,1); 2 min later (A,0) timed out; Y allocated (A,0) anew
+  st7  X allocated (A,0),(A,1) and completed (A,0); Y allocated {0 (already there), 2}
 
 From every root, EVERY request of a fixed finite alphabet is issued:
   every route of HTTPServer (taken from the Klein url map and compared with the table below)
@@ -29,8 +34,11 @@ Oracle (per request, against the state just before it):
      uploads tables unchanged, response body contains no 4-byte run of any stored share payload.
   B  right Authorization, secrets missing / malformed / wrong kind / wrong length
      =>  status 4xx, digest and tables unchanged.
-  C  right Authorization, well-formed upload secret that is not the secret of the targeted
-     in-progress upload (PATCH or abort)  =>  status 4xx, unchanged, and the owner can still
+  C0 right Authorization, PATCH/abort carrying exactly the secret the targeted in-progress upload
+     was allocated with (per a reference ownership model kept by the check: last successful
+     allocation of that share; forgotten on completion / abort)  =>  not 401/403.
+  C  right Authorization, well-formed upload secret that is not the secret the targeted
+     in-progress upload was allocated with (PATCH or abort)  =>  status 4xx, unchanged, and the owner can still
      complete the upload (remaining ranges written with the right secret => 201, share reads
      back as owner's bytes).
   D  read-test-write on an existing slot with a well-formed wrong write enabler
@@ -44,6 +52,7 @@ right credentials and right secrets) outcomes are only counted.
 import hashlib
 import json
 import os
+from base64 import b64decode
 
 from .. import boot, common
 from .. import lib_http as L
@@ -86,7 +95,7 @@ ROUTE = {r[0]: r for r in ROUTES}
 METHODS = ["GET", "HEAD", "POST", "PUT", "PATCH", "DELETE"]
 AUTHS = ["absent", "empty", "wrong", "scheme", "nonutf8", "prefix", "suffix", "right"]
 SIZE = 8
-NSTATES = 5
+NSTATES = 8
 
 
 def check_route_table():
@@ -185,7 +194,7 @@ def _build_alphabet(tier):
         targets["abort"].append({"si": "Z", "n": 0})
     for name, method, tmpl, q in ROUTES:
         for t in targets[name]:
-            owner = name in ("abort", "write") and t.get("n") in (0, 2)
+            owner = name in ("abort", "write") and t.get("n") in (0, 1, 2)
             for sec in _sec_variants(q, owner):
                 for auth in AUTHS:
                     r = {"route": name, "m": method, "auth": auth, "sec": sec}
@@ -362,23 +371,57 @@ class Env(object):
         cl = n.client()
         im = StorageClientImmutables(cl)
         mu = StorageClientMutables(cl)
-        if state >= 1:
+        # reference model of who owns which in-progress upload (independent of the server's table):
+        # {(si name, share): frozenset of upload secrets given when it was allocated}
+        self.owners = {}
+        X, Y = frozenset([k.UX]), frozenset([k.UY])
+        base = state if state <= 4 else 0
+        if base >= 1:
             r = n.wait(im.create(k.A, {0, 1}, SIZE, k.UX, k.RX, k.CX))
             assert r.allocated == {0, 1}, r
             r = n.wait(im.create(k.A, {2}, SIZE, k.UY, k.RY, k.CY))
             assert r.allocated == {2}, r
-        if state >= 2:
+            self.owners = {("A", 0): X, ("A", 1): X, ("A", 2): Y}
+        if base >= 2:
             r = n.wait(im.write_share_chunk(k.A, 0, k.UX, 0, k.DATA[("A", 0)][:4]))
             assert not r.finished
-        if state >= 3:
+        if base >= 3:
             r = n.wait(im.write_share_chunk(k.A, 1, k.UX, 0, k.DATA[("A", 1)]))
             assert r.finished
-        if state >= 4:
+            del self.owners[("A", 1)]
+        if state == 5:      # r6: X holds {0,1}, X aborts 0, Y re-allocates 0
+            r = n.wait(im.create(k.A, {0, 1}, SIZE, k.UX, k.RX, k.CX))
+            assert r.allocated == {0, 1}, r
+            n.wait(im.abort_upload(k.A, 0, k.UX))
+            r = n.wait(im.create(k.A, {0}, SIZE, k.UY, k.RY, k.CY))
+            assert r.allocated == {0}, r
+            self.owners = {("A", 0): Y, ("A", 1): X}
+        if state == 6:      # r7: X's upload of 0 times out while its upload of 1 is alive, Y re-allocates 0
+            r = n.wait(im.create(k.A, {0}, SIZE, k.UX, k.RX, k.CX))
+            assert r.allocated == {0}, r
+            boot.R.advance(29 * 60)
+            r = n.wait(im.create(k.A, {1}, SIZE, k.UX, k.RX, k.CX))
+            assert r.allocated == {1}, r
+            boot.R.advance(2 * 60)
+            r = n.wait(im.create(k.A, {0}, SIZE, k.UY, k.RY, k.CY))
+            assert r.allocated == {0}, r
+            self.owners = {("A", 0): Y, ("A", 1): X}
+        if state == 7:      # r8: X completes 0 while 1 is in progress, Y allocates {0 (already there), 2}
+            r = n.wait(im.create(k.A, {0, 1}, SIZE, k.UX, k.RX, k.CX))
+            assert r.allocated == {0, 1}, r
+            r = n.wait(im.write_share_chunk(k.A, 0, k.UX, 0, k.DATA[("A", 0)]))
+            assert r.finished
+            r = n.wait(im.create(k.A, {0, 2}, SIZE, k.UY, k.RY, k.CY))
+            assert r.already_have == {0} and r.allocated == {2}, r
+            self.owners = {("A", 1): X, ("A", 2): Y}
+        if base >= 4:
             r = n.wait(mu.read_test_write_chunks(
                 k.M, k.W, k.RX, k.CX,
                 {0: TestWriteVectors(write_vectors=[WriteVector(offset=0, data=k.DATA[("M", 0)])])}, [ReadVector(0, 10)]))
             assert r.success
         self.snap()
+        if set(self.ip) != set(self.owners):
+            raise RuntimeError("scenario st%d: server tracks uploads %r, scenario expects %r" % (state, sorted(self.ip), sorted(self.owners)))
 
     def snap(self):
         self.d = self.node.digest(True)
@@ -441,12 +484,14 @@ def step(env, spec):
     """Issue one request in env.  Returns (violations, changed, outcome, dirty)."""
     k, node = env.k, env.node
     pre_d, pre_u, pre_ip = env.d, env.u, env.ip
+    owners = dict(env.owners)
     is_route = spec["m"] == ROUTE[spec["route"]][1]
     noauth = spec["auth"] != "right"
     payloads = env.payloads() if noauth else []
     enablers = env.enablers(k.si(spec["si"])) if (spec["route"] == "rtw" and is_route and not noauth) else set()
     method, path, headers, data = build_request(k, node, spec)
     sent = " ".join(v for (h, v) in headers if h == "X-Tahoe-Authorization")
+    sent_uploads = [v.split(" ", 1)[1] for (h, v) in headers if h == "X-Tahoe-Authorization" and v.startswith(UPLOAD + " ")]
     viols = []
     try:
         code, hd, body = node.raw(method, path, headers, data)
@@ -475,16 +520,22 @@ def step(env, spec):
             viols.append(("malformed-secrets-accepted:%s" % secname, "missing/malformed secrets answered %d (want 400): %s" % (code, desc)))
         if changed:
             viols.append(("malformed-secrets-state-change", "request with missing/malformed secrets changed server state: %s" % desc))
-    elif is_route and spec["route"] in ("write", "abort") and target in pre_ip and pre_ip[target][0] is not None \
-            and b64(pre_ip[target][0]) not in sent:
-        # well-formed upload secret(s), none of them the secret of the targeted in-progress upload
+    elif is_route and spec["route"] in ("write", "abort") and target in pre_ip and target in owners \
+            and sent_uploads and all(v in [b64(x) for x in owners[target]] for v in sent_uploads):
+        # exactly the secret the targeted upload was allocated with: must not be turned away
+        cls = "owner"
+        if code in (401, 403):
+            viols.append(("owner-refused:%s" % spec["route"], "%s with the secret the in-progress upload was allocated with answered %d: %s" % (spec["route"], code, desc)))
+    elif is_route and spec["route"] in ("write", "abort") and target in pre_ip and target in owners \
+            and not any(b64(x) in sent for x in owners[target]):
+        # well-formed upload secret(s), none of them the secret the targeted in-progress upload was allocated with
         cls = "wrongsecret"
         if not (400 <= code < 500):
             viols.append(("upload-secret-bypass:%s" % spec["route"], "%s on another client's in-progress upload without its secret answered %d (want 401): %s" % (spec["route"], code, desc)))
         if changed:
             viols.append(("upload-secret-state-change:%s" % spec["route"], "refused %s changed state: %s" % (spec["route"], desc)))
         if not viols:
-            bad = complete_upload(env, target, pre_ip)
+            bad = complete_upload(env, target, pre_ip, sorted(owners[target])[0])
             dirty = True
             if bad:
                 viols.append(("upload-not-completable", "after %s the owner cannot complete the upload: %s" % (desc, bad)))
@@ -499,20 +550,39 @@ def step(env, spec):
     if not dirty:
         post_ip = env.ip
         for key, (secret, ranges, raw) in sorted(pre_ip.items()):
-            if secret is not None and b64(secret) in sent:
+            own = owners.get(key) or ([secret] if secret is not None else [])
+            if any(b64(x) in sent for x in own):
                 continue
             if post_ip.get(key) != (secret, ranges, raw):
                 what = "gone" if key not in post_ip else ("secret changed" if post_ip[key][0] != secret else "written ranges/bytes changed")
                 viols.append(("foreign-upload-touched:%s" % spec["route"], "in-progress upload %r (secret not presented) %s after %s" % (key, what, desc)))
+    # reference model of upload ownership
+    if is_route and not noauth and not dirty:
+        if spec["route"] == "alloc" and code == 200:
+            try:
+                import cbor2
+                allocated = set(cbor2.loads(body)["allocated"])
+            except Exception:  # noqa
+                allocated = set()
+            secs = set()
+            for v in sent_uploads:
+                try:
+                    secs.add(b64decode(v))
+                except Exception:  # noqa
+                    pass
+            for n_ in allocated:
+                env.owners[(spec["si"], n_)] = frozenset(secs)
+        elif (spec["route"] == "write" and code == 201) or (spec["route"] == "abort" and code == 200):
+            env.owners.pop(target, None)
     outcome = "%s:%s:%s:%d%s" % (cls, spec["route"] if is_route else "wrong-method", secname, code, ":changed" if changed else "")
     return viols, changed, outcome, dirty
 
 
-def complete_upload(env, key, pre_ip):
+def complete_upload(env, key, pre_ip, secret):
     """The owner writes what is still missing; returns '' or a description of the failure."""
     k, node = env.k, env.node
     si_name, n_ = key
-    secret, ranges, raw = pre_ip[key]
+    _, ranges, raw = pre_ip[key]
     want = bytearray(k.DATA[(si_name, n_)] if (si_name, n_) in k.DATA else b"\x00" * SIZE)
     have = [False] * SIZE
     for (a, b) in ranges:
@@ -664,7 +734,7 @@ def run(tier, seed):
         "state_cap_hit": capped,
         "distinct_outcomes": len(outcomes),
         "outcome_classes": outcomes,
-        "rule": "BFS over adversary requests from the 5 scenario states; per level every request of the alphabet (sizes %r; level alphabets %r: every route x targets x Authorization variants x X-Tahoe-Authorization variants, plus every path under every other method) is sent to the real HTTPServer in every distinct state reached so far; state = directory digest + uploads tables; every transition is a real request (traces = transitions)" % (sizes, modes),
+        "rule": "BFS over adversary requests from the 8 scenario states; per level every request of the alphabet (sizes %r; level alphabets %r: every route x targets x Authorization variants x X-Tahoe-Authorization variants, plus every path under every other method) is sent to the real HTTPServer in every distinct state reached so far; state = directory digest + uploads tables; every transition is a real request (traces = transitions)" % (sizes, modes),
     }
     return total, cov
 
@@ -672,6 +742,6 @@ def run(tier, seed):
 MANIFEST = {
     "engine": "H",
     "technique": "explicit-state breadth-first search over adversary HTTP requests against the real HTTPServer/StorageServer behind treq's in-memory StubTreq; state = storage directory digest + uploads tables",
-    "text": "From each prefix of a background scenario (uploads in progress by two clients, a complete share, a mutable slot) every request of a finite alphabet - all 12 routes and every other method on their paths, 8 Authorization variants, about 20 X-Tahoe-Authorization variants (missing, extra, duplicated, malformed, wrong, another client's, right) - is sent, and again from every new state it produces (2 levels quick, 3 thorough). Without the exact swissnum the answer must be >= 400 with no stored share bytes and a byte-identical server; malformed or missing secrets must give 4xx and no change; write/abort with someone else's upload secret and writes with a wrong write enabler must be refused, change nothing and leave the upload completable by its owner.",
+    "text": "From each of 8 scenario states (prefixes of a background scenario with uploads in progress by two clients, a complete share and a mutable slot, plus three states where a share slot changed hands by abort / timeout / completion while a sibling share is still in progress) every request of a finite alphabet - all 12 routes and every other method on their paths, 8 Authorization variants, about 20 X-Tahoe-Authorization variants (missing, extra, duplicated, malformed, wrong, another client's, right) - is sent, and again from every new state it produces (2 levels quick, 3 thorough). Without the exact swissnum the answer must be >= 400 with no stored share bytes and a byte-identical server; malformed or missing secrets must give 4xx and no change; write/abort with someone else's upload secret and writes with a wrong write enabler must be refused, change nothing and leave the upload completable by its owner.",
     "note": "Complete for the listed alphabet and depth only; TLS, timeouts and header encodings outside the alphabet are not covered. Behaviours the statement does not fix (duplicates containing the right secret, lenient base64) are counted, not judged. DESIGN.md says 13 routes; the url map has 12 (checked at start-up against the table).",
 }
